@@ -130,6 +130,14 @@ func checkC15(ck *Check) {
 			}
 		}
 		key := ck.P.siteKey(us.upd)
+		if loop == nil && fn == a.AddTaint {
+			// the search may live in a helper: found(fetched) decided by a search function
+			if call, node, found := ck.taintSearchCall(ctx, fn, keyLit); call != nil && node.Key() == us.fetched.Key() {
+				ck.entails("C15.R4", key+"/no-restamp", us.upd, ctx.PC(us.upd), Not(found), "Update runs only if no taint of the fetched object carries the escalator key (decided by the search function "+calleeName(call)+")")
+				ck.addedTaint("C15.R3", us)
+				continue
+			}
+		}
 		if loop == nil {
 			ck.fail("C15.R4", key+"/search", ck.P.instrPos(us.upd), funcID(fn), "the function searches the fetched object's Spec.Taints for the escalator key", "no such loop", "the decision is taken on the cached node")
 			continue
@@ -335,10 +343,67 @@ func (ck *Check) addedTaint(rule string, us *updSite) {
 func (ck *Check) deleteIdiom(rule string, us *updSite, loop *Loop, match *Term) {
 	fn, ctx := us.fn, us.ctx
 	key := ck.P.siteKey(us.upd)
-	// Update inside the loop under the match, followed by returns on all paths
-	okPos := loop.Header.Dominates(us.upd.Block())
-	if imp, _, _ := Entails(ctx.PC(us.upd), Atom(match)); !imp {
-		okPos = false
+	// the removal index: the loop's own index under the match (Update inside the loop), or a
+	// variable every feasible defining case of which is the loop index taken on an exit under the
+	// match (search first, remove after the loop)
+	idxOK := func(v ssa.Value) bool {
+		if rangeLoopOf(v) == loop.IdxPhi {
+			imp, _, _ := Entails(ctx.PC(us.upd), Atom(match))
+			return imp && loop.Header.Dominates(us.upd.Block())
+		}
+		ph, isPhi := v.(*ssa.Phi)
+		if !isPhi || ctx.loopCarried(ph) {
+			return false
+		}
+		vt := ctx.Term(v)
+		matched := 0
+		for _, vc := range ck.valueCases(ctx, FTrue, v, 0) {
+			// the path condition of the Update with the index replaced by this case's value
+			pcv := ctx.PC(us.upd).Subst(func(at *Term) *Formula {
+				if at.Kind != "cmp" || !at.contains(func(x *Term) bool { return x.Key() == vt.Key() }) {
+					return nil
+				}
+				return foldCmp(replaceTerm(at, vt.Key(), vc.term))
+			})
+			if sat, err := Satisfiable(And(pcv, vc.guard)); err == nil && !sat {
+				continue // this definition cannot reach the Update
+			}
+			tv, _ := vc.term.Val.(ssa.Value)
+			if tv == nil || rangeLoopOf(tv) != loop.IdxPhi {
+				return false
+			}
+			if imp, _, _ := Entails(vc.guard, Atom(match)); !imp {
+				return false
+			}
+			matched++
+		}
+		return matched > 0
+	}
+	var removalIdx ssa.Value
+	for _, b := range fn.Blocks {
+		if !loop.Header.Dominates(b) {
+			continue
+		}
+		for _, in := range b.Instrs {
+			if st, ok := in.(*ssa.Store); ok {
+				if path, rooted := rootedAt(ctx, st.Addr, us.fetched); rooted && strings.Join(path, ".") == "Spec.Taints.[]" {
+					if ia, ok := st.Addr.(*ssa.IndexAddr); ok {
+						removalIdx = ia.Index
+					}
+				}
+			}
+			if ap, ok := isBuiltinCall(valueOf(in), "append"); ok && removalIdx == nil {
+				if sx, ok := ap.Common().Args[0].(*ssa.Slice); ok && sx.High != nil {
+					removalIdx = sx.High
+				}
+			}
+		}
+	}
+	okPos := false
+	if removalIdx != nil {
+		okPos = idxOK(removalIdx)
+	} else if imp, _, _ := Entails(ctx.PC(us.upd), Atom(match)); imp {
+		okPos = loop.Header.Dominates(us.upd.Block())
 	}
 	ck.cond(okPos, rule, key+"/guard", ck.P.instrPos(us.upd), funcID(fn), "the removal and Update happen at an index whose taint Key matched", ctx.PC(us.upd).String(), "a taint other than escalator's is removed")
 	back := reachesWithout(us.upd, loop.Header.Instrs[0], func(ssa.Instruction) bool { return false })
@@ -372,7 +437,7 @@ func (ck *Check) deleteIdiom(rule string, us *updSite, loop *Loop, match *Term) 
 		lenMinus1 := func(t *Term) bool {
 			return t.Kind == "binop" && t.Name == "-" && t.Args[0].Kind == "len" && taints(t.Args[0].Args[0]) && t.Args[1].Name == "1"
 		}
-		isIdx := func(v ssa.Value) bool { return rangeLoopOf(v) == loop.IdxPhi }
+		isIdx := func(v ssa.Value) bool { return rangeLoopOf(v) == loop.IdxPhi || (v == removalIdx && okPos) }
 		switch {
 		case hv.Kind == "slice" && taints(hv.Args[0]) && hv.Args[1].Name == "0" && lenMinus1(hv.Args[2]) && elemStore != nil:
 			// element store: Taints[i] ← Taints[len-1]
@@ -482,7 +547,7 @@ func (ck *Check) filterPredicates(rule func(n int) string) {
 		ctx := ck.P.NewCtx(fn)
 		pod := paramTerm(fn.Params[0])
 		got := ctx.returnFormula(0)
-		ds := Atom(&Term{Kind: "call", Name: funcID(isDS), Fn: isDS, Obj: isDS.Object(), Args: []*Term{pod}})
+		ds := boolResultFormula(ctx, isDS, []*Term{pod}, 0)
 		static := ctx.childTerm(&Term{Kind: "call", Name: funcID(isStatic), Fn: isStatic, Args: []*Term{pod}}).returnFormula(0)
 		spec := ck.nodeField(pod, "Spec")
 		sel := ck.nodeField(pod, "Spec", "NodeSelector")
@@ -659,10 +724,11 @@ func (ck *Check) affinityFilter(rule string, fn, isDS, unwrap *ssa.Function) {
 		ck.lost(rule, "labelKey/labelValue/unwrapNodeSelectorTerms", "not found")
 		return
 	}
-	ds := Atom(&Term{Kind: "call", Name: funcID(isDS), Fn: isDS, Obj: isDS.Object(), Args: []*Term{pod}})
+	ds := boolResultFormula(ctx, isDS, []*Term{pod}, 0)
 	lk := &Term{Kind: "lookup", Args: []*Term{ck.nodeField(pod, "Spec", "NodeSelector"), k}}
 	selOK := Atom(&Term{Kind: "extract", Name: "1", Args: []*Term{lk}})
 	selEq := cmpFormula(token.EQL, &Term{Kind: "extract", Name: "0", Args: []*Term{lk}}, v)
+	valuesViaHelper := false
 	classify := func(at *Term) string {
 		switch {
 		case at.Key() == ds.atom.Key():
@@ -682,6 +748,20 @@ func (ck *Check) affinityFilter(rule string, fn, isDS, unwrap *ssa.Function) {
 				return "opIn"
 			case (at.Args[0].Key() == v.Key() || at.Args[1].Key() == v.Key()) && strings.Contains(s, "Values"):
 				return "valEq"
+			}
+		case at.Kind == "call" && at.Fn != nil && ck.P.inRepo(at.Fn):
+			// membership helper: h(values, wanted) ⇔ ∃ e ∈ values: e == wanted
+			if sum := ck.existsSummary(at.Fn); sum != nil && sum.Field == "" {
+				bind := map[ssa.Value]*Term{}
+				for i, p := range at.Fn.Params {
+					if i < len(at.Args) {
+						bind[p] = at.Args[i]
+					}
+				}
+				if sum.Lit.subst(bind).Key() == v.Key() && strings.HasSuffix(sum.List.subst(bind).String(), ".Values") {
+					valuesViaHelper = true
+					return "valEq"
+				}
 			}
 		}
 		return "?"
@@ -764,6 +844,9 @@ func (ck *Check) affinityFilter(rule string, fn, isDS, unwrap *ssa.Function) {
 	}
 	joined := strings.Join(overs, " | ")
 	for _, need := range []string{"unwrapNodeSelectorTerms(pod)", "MatchExpressions", "Values"} {
+		if need == "Values" && valuesViaHelper {
+			continue // the values are searched by a membership helper
+		}
 		if !strings.Contains(joined, need) {
 			okv = false
 			why = append(why, "no loop over "+need)
@@ -821,29 +904,11 @@ func (ck *Check) filteredLister(rule string, fn *ssa.Function) {
 		if et := ctx.Term(r.Results[1]); !(et.Kind == "const" && et.Name == "nil") {
 			continue
 		}
-		pr := sliceProv(r.Results[0])
-		if len(pr.Appends) != 1 || len(pr.Appends[0].Elems) != 1 {
-			continue
-		}
-		bad := false
-		for _, root := range pr.Roots {
-			if !makeSliceEmpty(root) {
-				if ms, ok := root.(*ssa.MakeSlice); ok {
-					if k, ok := ms.Len.(*ssa.Const); ok && k.Int64() == 0 {
-						continue
-					}
-				}
-				bad = true
+		over, filter, w := ck.filterCollect(fn, ctx, r.Results[0], 0)
+		if over == nil {
+			if w != "" {
+				why = w
 			}
-		}
-		ap := pr.Appends[0]
-		l := innermostLoop(fn, ap.Call.Block())
-		if bad || l == nil || !l.FullTraversal() {
-			continue
-		}
-		el := ctx.Term(ap.Elems[0])
-		over := ctx.Term(l.Over)
-		if el.Kind != "elem" || el.Args[0].Key() != over.Key() {
 			continue
 		}
 		// over = result 0 of the backing lister's List
@@ -851,25 +916,109 @@ func (ck *Check) filteredLister(rule string, fn *ssa.Function) {
 			why = "the ranged list is not the backing lister's result"
 			continue
 		}
-		// PC(append) ⇔ body ∧ filter(elem)
-		body := And(ctx.BlockPC(l.Header), ctx.edgeCond(l.Header, l.Header.Succs[0]))
-		var fa *Term
-		for _, at := range ctx.PC(ap.Call).Atoms() {
-			if at.Kind == "call" && len(at.Args) == 1 && at.Args[0].Key() == el.Key() && strings.Contains(at.Name, "filterFunc") {
-				fa = at
+		// the guard is the lister's own filter: a function-typed field of the receiver
+		isRecvField := filter != nil && filter.Kind == "field" && len(filter.Args) == 1
+		if isRecvField {
+			base := filter.Args[0]
+			if base.Kind == "deref" {
+				base = base.Args[0]
 			}
+			_, isSig := filter.Typ.Underlying().(*types.Signature)
+			isRecvField = base.Kind == "param" && len(fn.Params) > 0 && base.Val == ssa.Value(fn.Params[0]) && isSig
 		}
-		if fa == nil {
-			why = "the append is not guarded by filterFunc(element)"
+		if !isRecvField {
+			why = "the append is not guarded by the lister's own filter function: " + fmt.Sprint(filter)
 			continue
 		}
-		if eq, _, _ := Equivalent(ctx.PC(ap.Call), And(body, Atom(fa))); eq {
-			okv = true
-		} else {
-			why = "extra conditions besides the filter: " + ctx.PC(ap.Call).String()
-		}
+		okv = true
 	}
 	ck.cond(okv, rule, funcID(fn), ck.P.position(fn.Pos()), funcID(fn), "List() returns exactly the elements of the backing list that the group's filter accepts", "", why)
+}
+
+// filterCollect: slice is `for x in L { if f(x) { acc = append(acc, x) } }` starting empty — built
+// in fn, or by a repo helper fn calls for it. Returns L and f as terms of ctx's vocabulary.
+func (ck *Check) filterCollect(fn *ssa.Function, ctx *Ctx, slice ssa.Value, depth int) (*Term, *Term, string) {
+	pr := sliceProv(slice)
+	if len(pr.Appends) == 0 && len(pr.Roots) == 1 && depth < 2 {
+		if call, ok := pr.Roots[0].(*ssa.Call); ok {
+			if h := call.Common().StaticCallee(); h != nil && ck.P.inRepo(h) && h.Blocks != nil && h.Signature.Results().Len() == 1 {
+				args := make([]*Term, len(call.Common().Args))
+				for i, av := range call.Common().Args {
+					args[i] = ctx.Term(av)
+				}
+				ch := ctx.child(h, call, args)
+				ch.depth = 0
+				var over, filter *Term
+				for _, b := range h.Blocks {
+					ret, ok := b.Instrs[len(b.Instrs)-1].(*ssa.Return)
+					if !ok {
+						continue
+					}
+					o, f, w := ck.filterCollect(h, ch, ret.Results[0], depth+1)
+					if o == nil {
+						return nil, nil, "in " + funcID(h) + ": " + w
+					}
+					if over != nil && (over.Key() != o.Key() || filter.Key() != f.Key()) {
+						return nil, nil, funcID(h) + " returns differently built lists"
+					}
+					over, filter = o, f
+				}
+				return over, filter, ""
+			}
+		}
+	}
+	if len(pr.Appends) != 1 || len(pr.Appends[0].Elems) != 1 {
+		return nil, nil, ""
+	}
+	for _, root := range pr.Roots {
+		if !makeSliceEmpty(root) {
+			if ms, ok := root.(*ssa.MakeSlice); ok {
+				if k, ok := ms.Len.(*ssa.Const); ok && k.Int64() == 0 {
+					continue
+				}
+			}
+			return nil, nil, ""
+		}
+	}
+	ap := pr.Appends[0]
+	l := innermostLoop(fn, ap.Call.Block())
+	if l == nil || !l.FullTraversal() {
+		return nil, nil, ""
+	}
+	el := ctx.Term(ap.Elems[0])
+	over := ctx.Term(l.Over)
+	if el.Kind != "elem" || el.Args[0].Key() != over.Key() {
+		return nil, nil, ""
+	}
+	// PC(append) ⇔ body ∧ f(elem) for a call of a function value f
+	body := And(ctx.BlockPC(l.Header), ctx.edgeCond(l.Header, l.Header.Succs[0]))
+	var fa, fv *Term
+	for _, b := range fn.Blocks {
+		for _, in := range b.Instrs {
+			c, ok := in.(*ssa.Call)
+			if !ok || c.Common().IsInvoke() || c.Common().StaticCallee() != nil || len(c.Common().Args) != 1 {
+				continue
+			}
+			if _, isBuiltin := c.Common().Value.(*ssa.Builtin); isBuiltin {
+				continue
+			}
+			if ctx.Term(c.Common().Args[0]).Key() == el.Key() {
+				t := ctx.Term(c)
+				for _, at := range ctx.PC(ap.Call).Atoms() {
+					if at.Key() == t.Key() {
+						fa, fv = at, ctx.Term(c.Common().Value)
+					}
+				}
+			}
+		}
+	}
+	if fa == nil {
+		return nil, nil, "the append is not guarded by a filter call on the element"
+	}
+	if eq, _, _ := Equivalent(ctx.PC(ap.Call), And(body, Atom(fa))); !eq {
+		return nil, nil, "extra conditions besides the filter: " + ctx.PC(ap.Call).String()
+	}
+	return over, fv, ""
 }
 
 // freeVarValue: the term of the captured variable's value (free variables are pointers).
@@ -896,6 +1045,11 @@ func (ck *Check) untaintAgreement(rule string) {
 		}
 		key := funcID(fn) + "/taint-match"
 		if loop == nil {
+			// the search may live in a helper: a search function called with the escalator key
+			if call, _, _ := ck.taintSearchCall(ctx, fn, keyLit); call != nil {
+				ck.ok(rule, key, ck.P.instrPos(call), funcID(fn), "the escalator taint is recognised by Key == "+keyLit+" and nothing else (writer, remover and classifier agree)", "through the search function "+calleeName(call)+" called with the escalator key")
+				continue
+			}
 			ck.fail(rule, key, ck.P.position(fn.Pos()), funcID(fn), "the function searches Spec.Taints for the escalator key", "no such loop", "")
 			continue
 		}
@@ -1251,4 +1405,217 @@ func errorConstructor(v ssa.Value) bool {
 		}
 		return false
 	}
+}
+
+// existsSum: fn's last (boolean) result ⇔ ∃ e ∈ List: e.Field == Lit, where List is a term over
+// fn's parameters and Lit a constant or one of fn's parameters.
+type existsSum struct {
+	Fn    *ssa.Function
+	List  *Term
+	Field string
+	Lit   *Term
+}
+
+// existsSummary recognises a search function: one range loop, left early only to return true
+// under exactly `elem.Field == Lit`, false returned only after exhaustion.
+func (ck *Check) existsSummary(fn *ssa.Function) *existsSum {
+	if fn == nil || fn.Blocks == nil {
+		return nil
+	}
+	res := fn.Signature.Results()
+	if res.Len() == 0 || !isBool(res.At(res.Len()-1).Type()) {
+		return nil
+	}
+	var loop *Loop
+	for _, l := range loopsOf(fn) {
+		if l.IdxPhi == nil || loop != nil {
+			return nil // not a slice range, or several loops
+		}
+		loop = l
+	}
+	if loop == nil {
+		return nil
+	}
+	ctx := ck.P.NewCtx(fn)
+	ctx.maxD = 0 // the summary is about fn's own body
+	sum := &existsSum{Fn: fn, List: ctx.Term(loop.Over)}
+	trues := 0
+	for _, b := range fn.Blocks {
+		r, ok := b.Instrs[len(b.Instrs)-1].(*ssa.Return)
+		if !ok {
+			continue
+		}
+		k, isC := r.Results[len(r.Results)-1].(*ssa.Const)
+		if !isC || k.Value == nil {
+			return nil
+		}
+		if k.Value.String() != "true" {
+			if innermostLoop(fn, b) != nil {
+				return nil // false before the search is exhausted
+			}
+			continue
+		}
+		trues++
+		pc := ctx.BlockPC(b)
+		var m *Term
+		for _, at := range pc.Atoms() {
+			switch {
+			case at.Kind == "cmp" && at.Name == "<" && strings.Contains(at.String(), "rangeindex"):
+			case at.Kind == "cmp" && at.Name == "==" && m == nil:
+				m = at
+			default:
+				return nil // extra conditions
+			}
+		}
+		if m == nil {
+			return nil
+		}
+		if imp, _, _ := Entails(pc, Atom(m)); !imp {
+			return nil
+		}
+		var lit *Term
+		fname, hit := "", false
+		for i, x := range m.Args {
+			switch {
+			case x.Kind == "field" && isElemOf(x.Args[0], func(t *Term) bool { return t.Key() == sum.List.Key() }):
+				fname, lit, hit = x.Name, m.Args[1-i], true
+			case isElemOf(x, func(t *Term) bool { return t.Key() == sum.List.Key() }):
+				fname, lit, hit = "", m.Args[1-i], true // the element itself is compared (membership)
+			}
+		}
+		if !hit || !(lit.Kind == "const" || lit.Kind == "param") {
+			return nil
+		}
+		if sum.Lit != nil && (sum.Lit.Key() != lit.Key() || sum.Field != fname) {
+			return nil
+		}
+		sum.Field, sum.Lit = fname, lit
+	}
+	if trues == 0 {
+		return nil
+	}
+	for _, e := range loop.Exits {
+		if e[0] == loop.Header {
+			continue
+		}
+		r, ok := e[1].Instrs[len(e[1].Instrs)-1].(*ssa.Return)
+		if !ok {
+			return nil
+		}
+		if k, ok := r.Results[len(r.Results)-1].(*ssa.Const); !ok || k.Value == nil || k.Value.String() != "true" {
+			return nil
+		}
+	}
+	return sum
+}
+
+// taintSearchCall: a call in fn of a search function that, with the call's arguments bound,
+// decides ∃ t ∈ <node>.Spec.Taints: t.Key == keyLit. Returns the call, the node term and the
+// formula of "found" in ctx's vocabulary.
+func (ck *Check) taintSearchCall(ctx *Ctx, fn *ssa.Function, keyLit string) (*ssa.Call, *Term, *Formula) {
+	for _, ci := range callsIn(fn, nil) {
+		call, ok := ci.(*ssa.Call)
+		if !ok {
+			continue
+		}
+		h := call.Common().StaticCallee()
+		if h == nil || !ck.P.inRepo(h) {
+			continue
+		}
+		sum := ck.existsSummary(h)
+		if sum == nil || sum.Field != "Key" {
+			continue
+		}
+		bind := map[ssa.Value]*Term{}
+		args := make([]*Term, len(call.Common().Args))
+		for i, av := range call.Common().Args {
+			args[i] = ctx.Term(av)
+			if i < len(h.Params) {
+				bind[h.Params[i]] = args[i]
+			}
+		}
+		lit := sum.Lit.subst(bind)
+		list := sum.List.subst(bind)
+		if !(lit.Kind == "const" && lit.Name == keyLit) {
+			continue
+		}
+		if !(list.Kind == "field" && list.Name == "Taints" && list.Args[0].Kind == "field" && list.Args[0].Name == "Spec") {
+			continue
+		}
+		// the formula of this very call's boolean result (its term carries the call's identity when
+		// the enclosing function later writes the searched list)
+		last := h.Signature.Results().Len() - 1
+		var found *Formula
+		if last == 0 {
+			found = ctx.Formula(call)
+		} else {
+			for _, r := range *call.Referrers() {
+				if ex, ok := r.(*ssa.Extract); ok && ex.Index == last {
+					found = ctx.Formula(ex)
+				}
+			}
+		}
+		if found == nil {
+			continue
+		}
+		return call, list.Args[0].Args[0], found
+	}
+	return nil, nil, nil
+}
+
+func valueOf(in ssa.Instruction) ssa.Value {
+	v, _ := in.(ssa.Value)
+	return v
+}
+
+// replaceTerm rebuilds t with every subterm of the given key replaced by `by`.
+func replaceTerm(t *Term, key string, by *Term) *Term {
+	if t == nil {
+		return nil
+	}
+	if t.Key() == key {
+		return by
+	}
+	if len(t.Args) == 0 {
+		return t
+	}
+	changed := false
+	args := make([]*Term, len(t.Args))
+	for i, a := range t.Args {
+		args[i] = replaceTerm(a, key, by)
+		if args[i] != a {
+			changed = true
+		}
+	}
+	if !changed {
+		return t
+	}
+	n := *t
+	n.Args = args
+	n.key, n.str = "", ""
+	return &n
+}
+
+// foldCmp evaluates a comparison atom whose operands are integer constants.
+func foldCmp(at *Term) *Formula {
+	if at.Kind == "cmp" && len(at.Args) == 2 {
+		a, okA := at.Args[0].isConstInt()
+		b, okB := at.Args[1].isConstInt()
+		if okA && okB {
+			var v bool
+			switch at.Name {
+			case "<":
+				v = a < b
+			case "==":
+				v = a == b
+			default:
+				return Atom(at)
+			}
+			if v {
+				return FTrue
+			}
+			return FFalse
+		}
+	}
+	return Atom(at)
 }
